@@ -167,7 +167,7 @@ def env_level(ctx: Ctx):
             if sib is not None:   # drive SIBLINGS apart: delete one file of a folder, stop one service of a host, one folder of two …
                 trans = sibs.diverging(amap, sib["first"]) or trans
                 raws = sibs.raw_divergers(sib["hosts"])
-            for step in range(ctx.scale(25, 120) if order == "as-listed" else (ctx.scale(40, 70) if sib is not None else ctx.scale(12, 60))):
+            for step in range(ctx.scale(20, 120) if order == "as-listed" else (ctx.scale(32, 64) if sib is not None else ctx.scale(12, 60))):
                 sim = env.game.simulation
                 if raws and rng.chance(1, 5):
                     q = rng.choice(raws)
@@ -276,10 +276,11 @@ def env_level(ctx: Ctx):
                 a = rng.choice(trans) if trans and rng.chance(1, 2) else rng.below(n_actions)
                 if sib is not None and not rng.chance(1, 6):   # stay among the sibling entries
                     a = rng.choice(trans) if rng.chance(1, 2) else sib["first"] + rng.below(sib["added"])
-                if sib is not None and step % 2 == 0 and step // 2 < len(sib["prologue"]):
-                    # every second step of the first part: bring the run-time targets into being (create folder / files, INSTALL an
-                    # application the host does not have) — the steps in between and after see them in every state of their life
-                    a = sib["prologue"][step // 2]
+                if sib is not None and step < len(sib["prologue"]):
+                    # the first steps bring the run-time targets into being (create folder / files, INSTALL an application the host does
+                    # not have), one per step (= one tick): the whole mask is compared before every step, so every tick of INSTALLING
+                    # and every later state of their life is seen
+                    a = sib["prologue"][step]
                     ctx.count("siblings:run-time-target-created:" + amap[int(a)][0])
                 # stepped-action oracle: the mask the USER holds (read before the step) against what `env.step(a)` does with
                 # action a — "executing it now" includes whatever the step does before the agent acts (pre_timestep)
